@@ -1787,18 +1787,21 @@ class TestGraph(object):
         test_workers = []
         for suffix, slot in zip(suffixes, slots):
             # TODO: currently we truly support only one flat net per suffix
-            for flat_net in TestGraph.parse_flat_objects(suffix, "nets", params=params):
+            flat_nets = TestGraph.parse_flat_objects(suffix, "nets", params=params)
+            # a suffix that is the ID of one of its net variants selects just that worker
+            same_nets = [n for n in flat_nets if n.params["shortname"] == suffix]
+            for flat_net in same_nets or flat_nets:
                 test_worker = TestWorker(flat_net)
                 test_workers += [test_worker]
-            if slot is not None:
-                test_worker.overwrite_with_slot(slot)
+                if slot is not None:
+                    test_worker.overwrite_with_slot(slot)
 
-            if test_worker.swarm_id not in TestSwarm.run_swarms:
-                TestSwarm.run_swarms[test_worker.swarm_id] = TestSwarm(
-                    test_worker.swarm_id, [test_worker]
-                )
-            else:
-                TestSwarm.run_swarms[test_worker.swarm_id].workers += [test_worker]
+                if test_worker.swarm_id not in TestSwarm.run_swarms:
+                    TestSwarm.run_swarms[test_worker.swarm_id] = TestSwarm(
+                        test_worker.swarm_id, [test_worker]
+                    )
+                else:
+                    TestSwarm.run_swarms[test_worker.swarm_id].workers += [test_worker]
 
         return test_workers
 
